@@ -523,14 +523,20 @@ class Gen:
                 t = rng.choice(tyrefs(prog)[:-1])
                 prem.append([["ty", t], [var_of(t, 1)]])
         # model-typed variables must have a determined type: bind by a constant or by an explicit type atom
+        # (`v = dom(f)` determines the type of v only when the type of f is determined: morphism variables first)
         bound = set()
         for (k, vs) in prem:
             k = relkey(k)
-            cols = rel_cols(prog, k)
-            for v, t in zip(vs, cols):
-                if k[0] in ("g", "dom", "cod", "ty", "c"):
-                    bound.add(v)
+            if k[0] in ("g", "ty", "c"):
+                bound.update(vs)
         extra = []
+        for v, t in list(vty.items()):
+            if t == "F" and v not in bound:
+                extra.append([["ty", "F"], [v]])
+                bound.add(v)
+        for (k, vs) in prem:
+            if relkey(k)[0] in ("dom", "cod"):
+                bound.update(vs)
         for v, t in list(vty.items()):
             if t == "M" and v not in bound:
                 if mconsts and rng.chance(1, 2):
